@@ -218,6 +218,24 @@ def bookkeeping_rule(ctx, R4, keys):
             cs = b.calls_to(ACC + "::" + n)
             good, hit = unreachable_without(b, [c.bb for c in cs], removed_nodes=posts)
             ctx.require(R4, good and posts, cs[0].where() if cs else "-", "%s: %s happens after the request was answered" % (key.rsplit("::", 1)[1], n), [key, "bookkeeping-before-request", n])
+        # ... and a request the CA REFUSED records nothing: from the error edge of the request's result no fingerprint update is reachable
+        # (except through a fresh registration, which does its own bookkeeping) — otherwise the key / contacts are taken for accepted
+        # and never sent again
+        reg_polls = [p.bb for p in b.calls if (p.fn == POLL and p.res and p.res.startswith(REG + "::")) or p.is_(REG)]
+        err_targets = []
+        for p in b.calls:
+            if p.fn == POLL and p.res and p.res.startswith("acmed::acme_proto::http::") and p.bb in b.live_blocks() and p.dest is not None:
+                for t in try_edges(b, [p.dest["l"]]):
+                    if not t["adt"].endswith("Poll"):
+                        err_targets += list(t["err"])
+        if err_targets and key != REG:
+            for n in needs:
+                cs = [c.bb for c in b.calls_to(ACC + "::" + n)]
+                reach = set()
+                for tg in err_targets:
+                    reach |= b.reachable_flags([tg], removed_nodes=reg_polls)        # variant-tag sensitive: `Err(..)?` does not continue
+                ctx.require(R4, not (set(cs) & reach), where(b, sorted(set(cs) & reach)[0]) if set(cs) & reach else "%s:%s" % (b.file, b.line),
+                            "%s: a refused request does not reach account.%s() (only an accepted change is recorded)" % (key.rsplit("::", 1)[1], n), [key, "bookkeeping-after-refusal", n])
 
 
 def must_follow(ctx):
